@@ -1339,6 +1339,18 @@ def selftest(chk: Check, pool: Pool) -> None:
         chk.notes.append(f"self-test: seeded fault {name} detected")
 
 
+def pre_gate(chk: Check) -> None:
+    """Regenerate lean/Gen/LoopGen.lean from the source text of the six training functions of the tree under test
+    (before the Lean gate) and re-check `generated = model` (Proofs/LoopGenEq.lean) and the theorems restated over
+    the generated loops (Props/C20.lean, `C20_source_translation_*`).  A rejected source or a broken equality is a
+    gate problem naming the declaration; the train-loops suite below supplies the failing input."""
+    import common
+    import py2lean_loop
+    common.translation_gate(chk, py2lean_loop, "Gen/LoopGen.lean", ["Gen.LoopGen", "Proofs.LoopGenEq", "Props.C20"],
+                            "counter slice of the six training functions: loop structure, integer counters, budget "
+                            "test, learn scheduling, events in order")
+
+
 def run(chk: Check) -> None:
     chk.rule = ("real train_* functions on scripted instrumented environments: every claimed (loop, algorithm) pair, "
                 "uniform / n-step / prioritised memories, plain, 1-env and multi-env vector environments with num_envs "
